@@ -39,9 +39,12 @@ def setup():
 
 
 class Job:
-    def __init__(self, name, pkg, harness, subst, model="real", entries=None, timeout_ms=30000, unwind=None, maxpaths=20000):
+    def __init__(self, name, pkg, harness, subst, model="real", entries=None, timeout_ms=30000, unwind=None, maxpaths=20000, probe_values=None):
         self.name, self.pkg, self.harness, self.subst, self.model = name, pkg, harness, subst, model
         self.entries, self.timeout_ms, self.unwind, self.maxpaths = entries, timeout_ms, unwind, maxpaths
+        # when the solver answers unknown for an assertion (e.g. an identity of astronomically high degree that does not
+        # hold syntactically), try to falsify it natively with these concrete values for the nondeterministic inputs
+        self.probe_values = probe_values
 
 
 def run_job(binp, job, solver="z3-new"):
@@ -69,7 +72,7 @@ def run_job(binp, job, solver="z3-new"):
         r = json.load(open(outp))
         res.extend(r["results"])
         meta = {k: r[k] for k in r if k != "results"}
-    return dict(job=job.name, results=res, wall=time.time() - t, meta=meta, pkg=job.pkg, subst=job.subst, harness=job.harness, model=job.model)
+    return dict(job=job.name, results=res, wall=time.time() - t, meta=meta, pkg=job.pkg, subst=job.subst, harness=job.harness, model=job.model, probe_values=job.probe_values)
 
 
 # ---------------------------------------------------------------------------
@@ -196,7 +199,16 @@ def run_property(prop, tier, jobs, title, design_ref, assumptions, outside, expe
                 inconclusive.append("%s/%s: no reachability witness reached" % (jr["job"], h["harness"]))
             for f in h.get("failures") or []:
                 if f.get("status") != "sat":
-                    inconclusive.append("%s/%s: assertion %r undecided (solver: unknown)" % (jr["job"], h["harness"], f["msg"]))
+                    probed = False
+                    for vals in (jr.get("probe_values") or []):
+                        pf = dict(f, model={"probe#%d" % i: v for i, v in enumerate(vals)})
+                        ok, text = native_replay(jr, h["harness"], pf)
+                        if ok:
+                            violations.append((jr, h, pf, "solver undecided; falsified natively with the concrete values %s: %s" % (vals, text[:120])))
+                            probed = True
+                            break
+                    if not probed:
+                        inconclusive.append("%s/%s: assertion %r undecided (solver: unknown)" % (jr["job"], h["harness"], f["msg"]))
                     continue
                 fid = finding_matcher(jr, h, f, findings) if finding_matcher else None
                 rkey = (jr["job"], h["harness"], f["msg"])
@@ -460,11 +472,16 @@ def c15(prop, tier):
             Job("sha3-padding", "./std/hash/sha3", ["prelude_sym.go", "c15_sha3.go"], {"PKGNAME": "sha3"}),
             Job("sha2-variable-length", "./std/hash/sha2", ["prelude_sym.go", "api_standin.go", "c15_sha2_fixedlength.go"], {"PKGNAME": "sha2", "TIERNAME": tier}),
             Job("sha3-variable-length", "./std/hash/sha3", ["prelude_sym.go", "api_standin.go", "c15_sha3_fixedwidth.go"], {"PKGNAME": "sha3", "TIERNAME": tier})]
+    mimc_new = {"bn254": "newMimcBN254", "bls12-381": "newMimcBLS381", "bls12-377": "newMimcBLS377", "bw6-761": "newMimcBW761", "bw6-633": "newMimcBW633", "bls24-315": "newMimcBLS315", "bls24-317": "newMimcBLS317"}
+    for c in (["bn254", "bls12-377"] if tier == "quick" else CURVES):
+        jobs.append(Job("mimc-" + c, "./std/hash/mimc", ["prelude_sym.go", "prelude_fr_sym.go", "api_field_standin.go", "c15_mimc.go"],
+                        {"PKGNAME": "mimc", "FRPKG": fr_pkg(c), "NATIVEPKG": fr_pkg(c) + "/mimc", "NEWMIMC": mimc_new[c]},
+                        probe_values=[["3", "7", "11"], ["1", "0", "5"]]))
     return run_property(prop, tier, jobs,
-                        title="C15 (padding only): Merkle-Damgard padding of the SHA-2 and RIPEMD-160 gadgets for every message length 0..137 and pad10*1 of the SHA-3/Keccak gadgets for every rate, domain byte and the lengths around the block boundary, with symbolic message bytes; variable-length SHA-256 (FixedLengthSum): the in-circuit padding logic run against a frontend.API stand-in with the meaning of each call (real hints, real math/big), symbolic message bytes, buffer of 120 bytes, lengths at the block boundaries (quick) / every length 0..120 (thorough): the compression calls receive exactly the padded blocks, chained from the seed, and the digest is the state after ceil((L+9)/64) blocks; variable-length SHA-3 paddingFixedWidth (rates 136/72, domain bytes 0x06/0x01, buffer 150): msg[:L] || pad10*1 exactly and numberOfBlocks = floor(L/rate)+1.",
+                        title="C15 (padding only): Merkle-Damgard padding of the SHA-2 and RIPEMD-160 gadgets for every message length 0..137 and pad10*1 of the SHA-3/Keccak gadgets for every rate, domain byte and the lengths around the block boundary, with symbolic message bytes; variable-length SHA-256 (FixedLengthSum): the in-circuit padding logic run against a frontend.API stand-in with the meaning of each call (real hints, real math/big), symbolic message bytes, buffer of 120 bytes, lengths at the block boundaries (quick) / every length 0..120 (thorough): the compression calls receive exactly the padded blocks, chained from the seed, and the digest is the state after ceil((L+9)/64) blocks; variable-length SHA-3 paddingFixedWidth (rates 136/72, domain bytes 0x06/0x01, buffer 150): msg[:L] || pad10*1 exactly and numberOfBlocks = floor(L/rate)+1; MiMC: for messages of 1..2 symbolic field elements the gadget's digest (run against a field-valued API stand-in) and gnark-crypto's native digest are the same field expression (same constants table, rounds, exponent 5/7/17, key schedule, feed-forward), per curve.",
                         design_ref="DESIGN.md §3 C15",
                         assumptions=["message lengths are enumerated (slice lengths are concrete in the executor); message bytes are symbolic"],
-                        outside=["the compression / permutation functions (tens of thousands of table-lookup constraints over a 254-bit field)", "MiMC, Poseidon2", "SHA-3's absorbingFixedWidth block selection", "constraint-level soundness of the variable-length padding (the stand-in evaluates the honest computation)", "Merkle and Fiat-Shamir helpers"])
+                        outside=["the compression / permutation functions (tens of thousands of table-lookup constraints over a 254-bit field)", "Poseidon2", "SHA-3's absorbingFixedWidth block selection", "constraint-level soundness of the variable-length padding (the stand-in evaluates the honest computation)", "Merkle and Fiat-Shamir helpers"])
 
 
 def c13(prop, tier):
@@ -486,10 +503,11 @@ def c03(prop, tier):
         sub = dict(groth_subst(c), FRPKG=fr_pkg(c), CURVE=c)
         jobs.append(Job("commitment-challenge-" + c, "./backend/groth16/" + c, ["prelude_sym.go", "prelude_fr_sym.go", "c03_challenge.go"], sub))
     for c in (["bn254"] if tier == "quick" else CURVES):
+        jobs.append(Job("plonk-domains-" + c, "./backend/plonk/" + c, ["prelude_sym.go", "c03_plonk_domains.go"], dict(plonk_subst(c), CRVNAME=c)))
         jobs.append(Job("plonk-bsb22-challenge-" + c, "./backend/plonk/" + c, ["prelude_sym.go", "prelude_fr_sym.go", "c03_plonk_challenge.go"], dict(plonk_subst(c), CRVNAME=c)))
     return run_property(prop, tier, jobs,
-                        expect_reach={"verifHarness_commitmentChallengeConsistency": ["challenge-compared"], "verifHarness_bsb22HintChallenge": ["challenge"]},
-                        title="C03 (prover kernels and prover/verifier agreement): Groth16 commitment-wire derivation: the real Prove (cut at the solver, whose stand-in runs the prover's hint override) and the real Verify (cut at the public-input multi-exponentiation) hash exactly the same bytes and, given the same digest, derive the same field element, for 0..2 committed public values, 0..1 private ones, symbolic values and commitment point, and hash-to-field functions with a digest shorter than / equal to / longer than a field element set on both sides; PLONK: the prover's real bsb22Hint hashes the marshalled commitment and maps the first min(Size, fr.Bytes) digest bytes, the rule the verifier is held to in C02's algebra harness; filterHeap, which selects the wire values fed to the Krs multi-exponentiation when commitments exist, removes exactly the listed indices (duplicates, any order) and keeps the others in order, for slices of 0..4 elements, offsets 0..3 and 0..3 symbolic indices.",
+                        expect_reach={"verifHarness_commitmentChallengeConsistency": ["challenge-compared"], "verifHarness_bsb22HintChallenge": ["challenge"], "verifHarness_quotientDomainSize": ["domains"]},
+                        title="C03 (prover kernels and prover/verifier agreement): Groth16 commitment-wire derivation: the real Prove (cut at the solver, whose stand-in runs the prover's hint override) and the real Verify (cut at the public-input multi-exponentiation) hash exactly the same bytes and, given the same digest, derive the same field element, for 0..2 committed public values, 0..1 private ones, symbolic values and commitment point, and hash-to-field functions with a digest shorter than / equal to / longer than a field element set on both sides; PLONK: the prover's real bsb22Hint hashes the marshalled commitment and maps the first min(Size, fr.Bytes) digest bytes, the rule the verifier is held to in C02's algebra harness; PLONK newInstance: for every system size 2..2^20 (symbolic) the quotient domain holds the 3(n+2) coefficients the prover slices out of it; filterHeap, which selects the wire values fed to the Krs multi-exponentiation when commitments exist, removes exactly the listed indices (duplicates, any order) and keeps the others in order, for slices of 0..4 elements, offsets 0..3 and 0..3 symbolic indices.",
                         design_ref="DESIGN.md §3 C03",
                         assumptions=["caller contract: indices to remove are not below the slice's first index",
                                      "encodings (Element.Marshal, big.Int.FillBytes, G1Affine.Marshal, Element.SetBytes) are opaque functions of their argument; the hash is a recording stand-in whose digest is arbitrary"],
